@@ -96,6 +96,17 @@ structure HybridCeltG (buf : List Nat) (maxData : Nat) (cfg : Cfg) (pk : PacketI
   intensity : (ccfg.start : Int) ≤ fr.hdr.allocInp.intensity
   dual : fr.hdr.allocInp.dualStereo = 0 ∨ fr.hdr.allocInp.dualStereo = 1
 
+/-- lock step at a prefix, the range itself (C08 `lockstep_rng`; `World.sync` has `ec_tell`) -/
+theorem world_rng_sync (w : World) (P : List Op) (h : w.IsPrefix P) : (w.decAt P).rng = (w.encAt P).rng := by
+  obtain ⟨Q, hQ⟩ := h
+  have hl := w.hl; have hn := w.hn; have herr := w.herr
+  rw [hQ] at hl hn herr
+  have h6 := (decode_encode_prefix w.buf w.size P Q w.hs w.hb hl hn herr).2
+  have := h6.rc.rng_eq
+  unfold World.decAt World.encAt World.d0 World.bytes World.len
+  rw [hQ]
+  exact this
+
 /-- **The main part of a hybrid frame, any redundancy signalling, decoded on its own.** -/
 theorem hybrid_main_part_roundtrip_all (buf : List Nat) (maxData nCh ms10 : Nat) (pk : PacketIn) (gate : Bool)
     (red c2s : Nat) (R : Bytes) (rr : Nat)
@@ -114,6 +125,11 @@ theorem hybrid_main_part_roundtrip_all (buf : List Nat) (maxData nCh ms10 : Nat)
       (hybridFrame buf maxData (hybridCfg nCh ms10) pk gate red c2s fr.ops R rr).payload = w.bytes ++ R ∧
       w.bytes.length = w.len ∧
       Reads (decInit w.bytes w.len) (hybridP0G maxData (hybridCfg nCh ms10) pk gate red c2s R.length) ∧
+      (w.decAt (hybridP0G maxData (hybridCfg nCh ms10) pk gate red c2s R.length)).rng =
+        (encRun (encInit buf (maxData - 1)) (packetOps (hybridCfg nCh ms10) pk ++ redSigOps true gate red c2s R.length)).rng ∧
+      tell (w.decAt (hybridP0G maxData (hybridCfg nCh ms10) pk gate red c2s R.length)) =
+        tell (encRun (encInit buf (maxData - 1)) (packetOps (hybridCfg nCh ms10) pk ++ redSigOps true gate red c2s R.length)) ∧
+      (w.decAt (hybridP0G maxData (hybridCfg nCh ms10) pk gate red c2s R.length)).storage = w.len ∧
       FrameAgree w (hybridP0G maxData (hybridCfg nCh ms10) pk gate red c2s R.length) ccfg fr dh ∧
       Opus.CeltBands.celtFrame (cfgD ccfg) w.len
           (decRun (decInit w.bytes w.len) (hybridP0G maxData (hybridCfg nCh ms10) pk gate red c2s R.length)).2 =
@@ -125,7 +141,7 @@ theorem hybrid_main_part_roundtrip_all (buf : List Nat) (maxData nCh ms10 : Nat)
           { rem := 0, c := w.decAt (hybridP0G maxData (hybridCfg nCh ms10) pk gate red c2s R.length ++ fr.hdr.ops),
             tr := [], fault := false }).c.rng =
         (encodeAll buf (maxData - 1) (hybridOps maxData (hybridCfg nCh ms10) pk gate red c2s R.length fr.ops)).rng := by
-  obtain ⟨w, hwb, hws, hall, hE, _⟩ := hybrid_world_g buf maxData nCh ms10 pk gate red c2s R.length fr.ops hs hb hok hrb hsuf hn29 herr
+  obtain ⟨w, hwb, hws, hall, hE, c2⟩ := hybrid_world_g buf maxData nCh ms10 pk gate red c2s R.length fr.ops hs hb hok hrb hsuf hn29 herr
   generalize hcfg : hybridCfg nCh ms10 = cfg at *
   have hwE : encodeAll w.buf w.size w.all = encodeAll buf (maxData - 1) (hybridOps maxData cfg pk gate red c2s R.length fr.ops) := by
     rw [hwb, hws, hall, hE]
@@ -143,7 +159,25 @@ theorem hybrid_main_part_roundtrip_all (buf : List Nat) (maxData nCh ms10 : Nat)
     (by rw [hwlen, hwenc]; exact hcelt.tapset) hcelt.intensity hcelt.dual
   have hreads := world_reads w
   rw [hall, reads_append] at hreads
-  refine ⟨w, dh, sA, hwb, hws, hall, hwlen, hpay, (world_bytes w).1, hreads.1, fa, hcf, ?_⟩
+  have hp0 : w.IsPrefix (hybridP0G maxData cfg pk gate red c2s R.length) := ⟨fr.ops, hall⟩
+  obtain ⟨sy1, _, sy3, _⟩ := w.sync _ hp0
+  have hrs := world_rng_sync w _ hp0
+  rw [hwenc] at sy1 hrs
+  have hcr : (encRun (encInit buf (maxData - 1)) (packetOps cfg pk ++
+      (redSigOps true gate red c2s R.length ++ [Op.shrink (maxData - 1 - R.length)]))).rng =
+      (encRun (encInit buf (maxData - 1)) (hybridP0G maxData cfg pk gate red c2s R.length)).rng := by
+    have := congrArg Ctx.rng c2; simpa using this
+  have hct := canon_tell c2
+  have hshrR : (encRun (encInit buf (maxData - 1)) (packetOps cfg pk ++
+      (redSigOps true gate red c2s R.length ++ [Op.shrink (maxData - 1 - R.length)]))).rng =
+      (encRun (encInit buf (maxData - 1)) (packetOps cfg pk ++ redSigOps true gate red c2s R.length)).rng := by
+    rw [← List.append_assoc, encRun_append]; rfl
+  have hshrT : tell (encRun (encInit buf (maxData - 1)) (packetOps cfg pk ++
+      (redSigOps true gate red c2s R.length ++ [Op.shrink (maxData - 1 - R.length)]))) =
+      tell (encRun (encInit buf (maxData - 1)) (packetOps cfg pk ++ redSigOps true gate red c2s R.length)) := by
+    rw [← List.append_assoc, encRun_append]; exact tell_congr rfl rfl
+  refine ⟨w, dh, sA, hwb, hws, hall, hwlen, hpay, (world_bytes w).1, hreads.1, by rw [hrs, ← hcr, hshrR],
+    by rw [sy1, ← hct, hshrT], sy3, fa, hcf, ?_⟩
   rw [fa.rngFin, fa.encFin, ← hwE, ← hall]
   unfold World.encAt encodeAll
   rw [encDone_rng]
